@@ -6,5 +6,5 @@ git -C /repo worktree remove --force $wt >/dev/null 2>&1; rm -rf $wt $vd
 git -C /repo worktree add --detach $wt HEAD >/dev/null 2>&1
 git -C $wt apply /verif/$d/patch.diff || { echo "patch does not apply"; exit 1; }
 mkdir -p $vd/evidence; cp /verif/known_findings.json $vd/
-$bin -p $props -tier quick -repo $wt -verif $vd 2>&1 | grep -E "^  (VIOLATED|UNDECIDED)|^OK" | cut -c1-${COLS:-420}
+$bin -p $props -tier quick -repo $wt -verif $vd 2>&1 | grep -E "^  (VIOLATED|UNDECIDED)|^OK" | cut -c1-${COLS:-420} | head -${LINES_MAX:-25}
 if [ -z "$KEEP" ]; then git -C /repo worktree remove --force $wt >/dev/null 2>&1; rm -rf $vd; fi
